@@ -13,7 +13,7 @@
 (***************************************************************************)
 EXTENDS Naturals, Sequences, FiniteSets, TLC
 Entries == {"str", "slice", "reader", "multi", "slice_multi", "read", "wd_str", "wd_slice", "wd_reader"}
-Targets == {"tree", "ignored", "struct", "enum", "map", "optvec", "bytes", "string", "borrowed", "floats"}
+Targets == {"tree", "ignored", "struct", "enum", "map", "optvec", "bytes", "string", "borrowed", "floats", "unit", "units"}
 OptVecs == {"default", "lenient", "tight"}
 NeedsUtf8(e) == e \in {"str", "multi", "wd_str"}
 Borrowing(e) == e \in {"str", "slice"}
